@@ -85,6 +85,7 @@ def ops_for(model):
             'G2=txt,G5=2': ('calc', {i(B, 'S', 'G2'): 'q', i(B, 'S', 'G5'): 2}, {k('G2'): ('t', 'q'), k('G5'): ('n', 2.0)}, None),
             'E1=0': ('calc', {i(B, 'S', 'E1'): 0}, {k('E1'): ('n', 0.0)}, None),
             'TOTAL=1': ('calc', {name_id(B, 'BLOCK_TOTAL'): 1}, {k('E1'): ('n', 1.0)}, None),
+            'GROSS=200': ('calc', {name_id(B, 'GROSS'): 200}, {'NAME:%s|GROSS' % B: ('n', 200.0)}, None),
             'C2=1>E4': ('calc', {i(B, 'S', 'C2'): 1}, {k('C2'): ('n', 1.0)}, [i(B, 'S', 'E4')]),
             'compile': ('compile', [i(B, 'S', 'A1:C2')], blk, [i(B, 'S', 'E2'), i(B, 'S', 'E3')], [[[10, 20, 30], [40, 50, 60]]]),
             'compile-G': ('compile', [i(B, 'S', 'G3')], {k('G3'): ('n', 11.0)}, [i(B, 'S', 'H1'), i(B, 'S', 'H2')], [11]),
@@ -137,7 +138,7 @@ def observe(model, name, res):
     kind, val = res
     if kind == 'sol':
         o = ops_for(model)[name]
-        keys = list(spec['cells']) + [k for ak in spec['arrays'] for k in spill_keys(ak)] + [k for k in (o[2] if len(o) > 2 else {}) if k not in spec['cells']]
+        keys = list(spec['cells']) + [k for ak in spec['arrays'] for k in spill_keys(ak)] + [k for k in (o[2] if len(o) > 2 else {}) if k not in spec['cells'] and not k.startswith('NAME:')]
         return {k: v for k, v in X.canon_solution(val, spec, keys).items() if v is not None}
     if kind == 'vals':
         import numpy as np
